@@ -24,7 +24,8 @@ CONSTANTS CasesFile, TraceFile, VerdictFile
 Dests == {"Int", "Int64", "Int32", "Float64", "Float32"}
 Reps  == {"int", "int32", "int64", "float32", "float64", "decstr", "expstr", "jsonnum"}
 
-\* magnitude points: [name, int (integral?), fits: destinations that can hold it exactly or (floats) as the same number,
+\* magnitude points: [name, int (integral?), fits: destinations that can hold it -- integers exactly, floats as the nearest
+\*                    representable value of the type (that IS the number in that type; overflow to Inf is not) --,
 \*                    reps: source representations that can express it]
 AllInt == {"int", "int64", "decstr", "float64", "expstr", "jsonnum"}
 P(name, integral, fits, reps) == [name |-> name, integral |-> integral, fits |-> fits, reps |-> reps]
@@ -35,17 +36,17 @@ Points == {
   P("half",      FALSE, {"Float64", "Float32"}, {"float32", "float64", "decstr", "expstr", "jsonnum"}),
   P("minusHalf", FALSE, {"Float64", "Float32"}, {"float32", "float64", "decstr", "expstr", "jsonnum"}),
   P("big7.75",   FALSE, {"Float64", "Float32"}, {"float32", "float64", "decstr", "expstr", "jsonnum"}),
-  P("maxI32",    TRUE,  {"Int", "Int64", "Int32", "Float64"}, AllInt \cup {"int32"}),
+  P("maxI32",    TRUE,  Dests, AllInt \cup {"int32"}),
   P("maxI32+1",  TRUE,  {"Int", "Int64", "Float64", "Float32"}, AllInt \cup {"float32"}),
   P("minI32",    TRUE,  Dests, AllInt \cup {"int32", "float32"}),
-  P("minI32-1",  TRUE,  {"Int", "Int64", "Float64"}, AllInt),
+  P("minI32-1",  TRUE,  {"Int", "Int64", "Float64", "Float32"}, AllInt),
   P("3e9",       TRUE,  {"Int", "Int64", "Float64", "Float32"}, AllInt \cup {"float32"}),
   P("2^53",      TRUE,  {"Int", "Int64", "Float64", "Float32"}, AllInt \cup {"float32"}),
-  P("maxI64",    TRUE,  {"Int", "Int64"}, {"int", "int64", "decstr"}),
+  P("maxI64",    TRUE,  {"Int", "Int64", "Float64", "Float32"}, {"int", "int64", "decstr"}),
   P("2^63",      TRUE,  {"Float64", "Float32"}, {"float32", "float64", "decstr", "expstr", "jsonnum"}),
   P("minI64",    TRUE,  {"Int", "Int64", "Float64", "Float32"}, AllInt \cup {"float32"}),
   P("-2^64",     TRUE,  {"Float64", "Float32"}, {"float32", "float64", "decstr", "expstr", "jsonnum"}),
-  P("1e19",      TRUE,  {"Float64"}, {"float64", "decstr", "expstr", "jsonnum"}),
+  P("1e19",      TRUE,  {"Float64", "Float32"}, {"float64", "decstr", "expstr", "jsonnum"}),
   P("maxF32",    TRUE,  {"Float64", "Float32"}, {"float32", "float64", "decstr", "expstr", "jsonnum"}),
   P("2^128",     TRUE,  {"Float64"}, {"float64", "decstr", "expstr", "jsonnum"}),
   P("1e300",     TRUE,  {"Float64"}, {"float64", "decstr", "expstr", "jsonnum"}),
@@ -109,7 +110,7 @@ TRow ==
      IN TLCSet(1, TLCGet(1)
           \o (IF bad18 THEN <<[prop |-> "C18", kind |-> "silently-changed", id |-> t.id, line |-> l,
                                detail |-> [rep |-> t.rep, dest |-> t.dest, point |-> t.point, input |-> t.input, got |-> t.got, outcome |-> t.outcome]]>> ELSE <<>>)
-          \o (IF bad03 /\ ~bad18 THEN <<[prop |-> "C03", kind |-> "documented-coercion-failed", id |-> t.id, line |-> l,
+          \o (IF bad03 THEN <<[prop |-> "C03", kind |-> "documented-coercion-failed", id |-> t.id, line |-> l,
                                detail |-> [rep |-> t.rep, dest |-> t.dest, point |-> t.point, input |-> t.input, got |-> t.got, outcome |-> t.outcome]]>> ELSE <<>>))
   /\ l' = l + 1
 TFinish ==
